@@ -30,7 +30,8 @@ def gen_auth_sel(rng):
 def gen_reg_args(rng):
     nonascii = rng.random() < 0.2
     a = {
-        "rp_id": rng.choice(["example.com", "login.example.org", "bücher.example" if nonascii else "a.b", "Login.Example.COM", "İstanbul.example" if nonascii else "EXAMPLE.com"]),
+        "rp_id": rng.choice(["example.com", "login.example.org", "bücher.example" if nonascii else "a.b", "Login.Example.COM", "İstanbul.example" if nonascii else "EXAMPLE.com",
+                             "xn--bcher-kva.example", "XN--BCHER-KVA.Example", "xn--80ak6aa92e.com", "example.com.", "xn--a.example"]),
         "rp_name": rng.choice(["Example Co", "ACME", "Bücher & Söhne" if nonascii else "Books", " padded name "]),
         "user_name": rng.choice(["lee", "user@example.com", "ユーザー" if nonascii else "u", "Lee@Example.COM", " lee ", "Zoe\u0308" if nonascii else "zoe", "\u212bngstro\u0308m" if nonascii else "angstrom"]),
         "user_id": rng.choice([None, None, b"", rng.randbytes(rng.choice([1, 16, 64]))]),
@@ -59,7 +60,7 @@ def gen_reg_args(rng):
 
 
 def gen_auth_args(rng):
-    return {"rp_id": rng.choice(["example.com", "a.b", "bücher.example", "Login.Example.COM"]), "challenge": rng.choice([None, b"", rng.randbytes(rng.choice([1, 32, 64]))]),
+    return {"rp_id": rng.choice(["example.com", "a.b", "bücher.example", "Login.Example.COM", "xn--bcher-kva.example", "XN--BCHER-KVA.example", "xn--80ak6aa92e.com"]), "challenge": rng.choice([None, b"", rng.randbytes(rng.choice([1, 32, 64]))]),
             "timeout": rng.choice([60000, 0, 5]), "allow": rng.choice([None, []]) if rng.random() < 0.4 else [gen_descriptor(rng) for _ in range(rng.randrange(1, 4))],
             "uv": rng.choice(UV)}
 
